@@ -154,6 +154,8 @@ def member_path(n):
     if k in ('CXXStaticCastExpr', 'CStyleCastExpr', 'CXXFunctionalCastExpr',
              'CXXConstCastExpr', 'CXXReinterpretCastExpr'):
         return member_path(n.kids[0]) if n.kids else None
+    if k == 'BinaryOperator' and n.op == ',' and len(n.kids) == 2:
+        return member_path(n.kids[1])
     if k in CTOR_KINDS and len(n.kids) == 1:
         # copy construction / conversion of a path keeps the path (py::object{node.node_data})
         return member_path(n.kids[0])
@@ -161,10 +163,16 @@ def member_path(n):
 
 
 def strip_casts(n):
-    while n is not None and n.kind in ('CXXStaticCastExpr', 'CStyleCastExpr',
-                                        'CXXFunctionalCastExpr', 'CXXConstCastExpr',
-                                        'CXXReinterpretCastExpr') and n.kids:
-        n = n.kids[-1]
+    """peel casts and the `((void)guard{...}, expr)` comma wrapper of EVALUATE_WITH_LOCK_HELD
+    (free-threaded configuration)"""
+    while n is not None:
+        if n.kind in ('CXXStaticCastExpr', 'CStyleCastExpr', 'CXXFunctionalCastExpr',
+                      'CXXConstCastExpr', 'CXXReinterpretCastExpr') and n.kids:
+            n = n.kids[-1]
+        elif n.kind == 'BinaryOperator' and n.op == ',' and len(n.kids) == 2:
+            n = n.kids[1]
+        else:
+            break
     return n
 
 
